@@ -11,7 +11,7 @@ import (
 )
 
 func init() {
-	register("C05", "Decides the structural part of the promotion rule: (R4) status.activeReplicaSet is stored only from the result of one decision function; (R1) every path of that function that returns the replica set matching spec.template implies active==upToDate ∨ active==nil ∨ no canary strategy ∨ canary-valid ∨ (ended ∧ ¬paused ∧ ¬failed), with the argument roles of the reader calls checked; (R2) IsCanaryDeploymentEnded is true only without canary spec or when the maximum of the duration term and the no-restart term is negative, never when Duration is nil; (R3) IsCanaryDeploymentValid is true only when the canary-valid annotation equals the name it is given; (R5) spec validation dominates the decision.", runC05)
+	register("C05", "Decides the structural part of the promotion rule: (R4) status.activeReplicaSet is stored only from the result of one decision function; (R1) every path of that function that returns the replica set matching spec.template implies active==upToDate ∨ active==nil ∨ no canary strategy ∨ canary-valid ∨ (ended ∧ ¬paused ∧ ¬failed), with the argument roles of the reader calls checked; (R2) IsCanaryDeploymentEnded is true only without canary spec or when the maximum of the duration term and the no-restart term is negative, never when Duration is nil; (R3) IsCanaryDeploymentValid is true only when the canary-valid annotation equals the name it is given; (R5) spec validation dominates the decision; (R6) the paused and failed readers answer yes exactly from their documented sources (replica-set condition; canary-paused annotation == \"true\") on every path.", runC05)
 }
 
 // edsReconcile returns the ExtendedDaemonSet reconciler entry point and the functions reachable from it.
@@ -188,6 +188,8 @@ func runC05(r *Run) {
 	r.Floor("C05.R2", 3)
 	r.Floor("C05.R3", 1)
 	r.Floor("C05.R5", 1)
+	r.RuleDoc("C05.R6", "paused/failed readers answer no only when no documented source says yes (and yes only from a source)")
+	r.Floor("C05.R6", 5)
 	r.NotCovered("timestamp arithmetic beyond operand roles; the requeue that wakes the controller at the end of the duration; orderings of the failing replica-set sync and the ExtendedDaemonSet reconcile")
 
 	site := findDecision(r, "C05.R4")
@@ -201,6 +203,7 @@ func runC05(r *Run) {
 	c05Ended(r)
 	c05Valid(r)
 	c05ValidationDominates(r, site)
+	c05ReaderCompleteness(r)
 }
 
 // promotionAtoms classifies the facts of a path of the decision function.
@@ -528,4 +531,124 @@ func c05ValidationDominates(r *Run, s *decisionSite) {
 	})
 	r.Check("C05.R5", "validation before decision", r.Prog.Pos(s.call.Pos()), shortFunc(s.caller),
 		"ValidateExtendedDaemonSetSpec(...) == nil holds where the promotion decision is taken", ok, "must-facts: "+ff.At(b).String())
+}
+
+// c05ReaderCompleteness: the paused / failed readers may answer "no" only when none of their
+// documented sources says "yes": a path returning false must carry, for the replica-set condition
+// source, (ers==nil ∨ ¬IsConditionTrue(status, <type>)) and, for the annotation source of the
+// paused reader, (¬found ∨ value!="true"). Otherwise the promotion rule's ¬paused / ¬failed atoms
+// would not mean what the statement says.
+func c05ReaderCompleteness(r *Run) {
+	type reader struct {
+		name, condConst, annKey string
+		idx                     int // index of the boolean result
+	}
+	trueVal, _ := r.Prog.constStr(pkgAPI, "ValueStringTrue")
+	for _, rd := range []reader{
+		{"IsCanaryDeploymentPaused", "ConditionTypeCanaryPaused", "ExtendedDaemonSetCanaryPausedAnnotationKey", 0},
+		{"IsCanaryDeploymentFailed", "ConditionTypeCanaryFailed", "", 0},
+	} {
+		fn := r.Prog.Func(pkgEDS, rd.name)
+		if fn == nil {
+			r.Fatal("anchor %s.%s not found", pkgEDS, rd.name)
+			continue
+		}
+		condVal, _ := r.Prog.constStr(pkgAPI, rd.condConst)
+		annVal := ""
+		if rd.annKey != "" {
+			annVal, _ = r.Prog.constStr(pkgAPI, rd.annKey)
+		}
+		var ers, ann *ssa.Parameter
+		for _, p := range fn.Params {
+			if isPtrToNamed(p.Type(), pkgAPI, "ExtendedDaemonSetReplicaSet") {
+				ers = p
+			} else if strings.HasPrefix(p.Type().String(), "map[string]string") {
+				ann = p
+			}
+		}
+		if ers == nil {
+			r.Undecided("C05.R6", rd.name+" signature", r.Prog.Pos(fn.Pos()), shortFunc(fn), "no replica-set parameter")
+			continue
+		}
+		paths, _, ok := funcPaths(fn, 5000)
+		r.paths += len(paths)
+		if !ok {
+			r.Undecided("C05.R6", rd.name+" table", r.Prog.Pos(fn.Pos()), shortFunc(fn), "path cap exceeded")
+			continue
+		}
+		isCondTrue := func(v ssa.Value) bool {
+			c, okc := isCallTo(v, pkgERSCond+".IsConditionTrue")
+			if !okc {
+				return false
+			}
+			root, p := accessPath(c.Call.Args[0])
+			s, oks := constString(c.Call.Args[1])
+			return root == ssa.Value(ers) && len(p) == 1 && p[0] == "Status" && oks && s == condVal
+		}
+		lookupOK := func(v ssa.Value, want int) bool { // extract #want of ann[annVal],ok
+			e, isE := v.(*ssa.Extract)
+			if !isE || e.Index != want {
+				return false
+			}
+			l, isL := e.Tuple.(*ssa.Lookup)
+			if !isL || ann == nil || unwrap(l.X) != ssa.Value(ann) {
+				return false
+			}
+			s, oks := constString(l.Index)
+			return oks && s == annVal
+		}
+		plainLookup := func(v ssa.Value) bool {
+			l, isL := v.(*ssa.Lookup)
+			if !isL || l.CommaOk || ann == nil || unwrap(l.X) != ssa.Value(ann) {
+				return false
+			}
+			s, oks := constString(l.Index)
+			return oks && s == annVal
+		}
+		nTrue := 0
+		for _, p := range paths {
+			ret := returnOf(p.Blocks[len(p.Blocks)-1])
+			res := p.Resolve(ret.Results[rd.idx])
+			pos := r.Prog.Pos(instrPos(ret))
+			b, isConst := constBool(res)
+			construct := fmt.Sprintf("%s returns %s on path [%s]", rd.name, res.Name(), shortFacts(p))
+			if !isConst {
+				// returning the condition test itself is fine for the failed reader
+				if isCondTrue(res) {
+					r.Check("C05.R6", construct, pos, shortFunc(fn), "result is the replica-set condition test", true, "")
+					nTrue++
+					continue
+				}
+				r.Undecided("C05.R6", construct, pos, shortFunc(fn), "result is not a constant on this path")
+				continue
+			}
+			if b {
+				nTrue++
+				// "true only if" direction: some source says yes
+				src := p.Has(true, func(v ssa.Value, _ string) bool { return isCondTrue(v) })
+				if rd.annKey != "" {
+					src = src || p.Has(true, func(v ssa.Value, _ string) bool {
+						return isEqCompare(v, func(x ssa.Value) bool { return lookupOK(x, 0) || plainLookup(x) }, isConstStringVal(trueVal))
+					})
+				}
+				r.Check("C05.R6", construct, pos, shortFunc(fn), "answers yes only when the replica-set condition is true or the annotation equals \"true\"", src, "path facts: "+shortFacts(p))
+				continue
+			}
+			condNo := p.Has(true, func(v ssa.Value, _ string) bool { return isNilCompareOf(v, isParam(ers)) }) ||
+				p.Has(false, func(v ssa.Value, _ string) bool { return isCondTrue(v) })
+			annNo := true
+			if rd.annKey != "" {
+				annNo = p.Has(false, func(v ssa.Value, _ string) bool { return lookupOK(v, 1) }) ||
+					p.Has(false, func(v ssa.Value, _ string) bool {
+						return isEqCompare(v, func(x ssa.Value) bool { return lookupOK(x, 0) || plainLookup(x) }, isConstStringVal(trueVal))
+					})
+			}
+			r.Check("C05.R6", construct, pos, shortFunc(fn),
+				"answers no only when the replica-set condition is not true and (for paused) the annotation is absent or not \"true\"", condNo && annNo,
+				fmt.Sprintf("condition source excluded=%v annotation source excluded=%v; path facts: %s", condNo, annNo, shortFacts(p)))
+		}
+		if nTrue == 0 {
+			r.Check("C05.R6", rd.name+" can answer yes", r.Prog.Pos(fn.Pos()), shortFunc(fn), "the reader has a path answering yes", false, "no path returns true")
+		}
+	}
 }
